@@ -68,15 +68,18 @@ class C01(fc.FlowCheck):
             fails.append(('no-response', 'start_response was never called'))
         if obs['status'] is not None and not (100 <= obs['status'] <= 599):
             fails.append(('illegal-status', 'status %r' % obs['status']))
-        # unexpected failure => 5xx
+        # unexpected failure => 5xx.  A hook point counts with the exception it propagates (run_hooks lets the
+        # LAST exception of the failsafe run win: an HTTPError raised by a later failsafe hook on purpose
+        # supersedes the earlier failure - designed behaviour, not demanded otherwise here).
         unexpected = [r for r in obs['raised'] if r[1] == 'Exception' and r[0] not in ('LogAccess',)]
-        hook_unexp = any(h[3] == 'Exception' and self._hook_ran(obs, h[0]) and p != 'on_end_request'
-                         for p, l in sc['hooks'].items() for h in l)
-        mid = sc['midstream'] and sc['midstream'][1] == 'Exception' and sc['stream']
+        hook_unexp = any(k == 'Exception' and p != 'OnEndRequest' and r == obs['requests']
+                         for p, r, k in obs['hook_raised'])
         redirected = any(e[0] == 'SetResponseOfExc' for e in obs['journal']) and obs['status'] and 300 <= obs['status'] < 400
         last_req = obs['requests']
         unexpected_last = any(self._site_req(obs, r[0]) == last_req for r in unexpected) or hook_unexp
-        if (unexpected_last or (sc['body'] in ('str', 'int') and not sc['stream'] and self._handler_ran_in(obs, last_req))) \
+        bad_body = sc['body'] in ('str', 'int') and not sc['stream'] and self._handler_ran_in(obs, last_req) \
+            and not any(f[0] == 'Handler' for f in sc['faults'])
+        if (unexpected_last or bad_body) \
                 and not esc and obs['status'] and obs['status'] < 500 and not redirected and obs['requests'] <= 1:
             fails.append(('unexpected-not-5xx', 'an unexpected failure was answered with %r' % obs['status']))
         # no leak
